@@ -172,3 +172,9 @@ package xrespondent
 //@   ensures result.Self == 99 && result.Peer == 98 && result.SelfName == "respondent" && result.PeerName == "surveyor"
 //@
 // ---- end generated Info contracts ----
+
+// ---- RemovePipe: the pipe leaves the map and its close channel is closed (round 7b) ----
+//@ func (*socket).RemovePipe
+//@   before call:delete#1 assert arg0 == s.pipes && held(s.Mutex)
+//@   before call:close#1 assert arg0 == p.closeQ
+//@   ensures called("delete")
